@@ -445,7 +445,7 @@ def parseCall (toks : List String) : Option Call :=
   | ["err_set_message", d] => do some (.mut .errSetMsg .err (← n d) none)
   | ["err_clear", d] => do some (.mut .errClear .err (← n d) none)
   | ["err_free", d] => do some (.dtor .err (← n d))
-  | ["ini_new", d, f] => do let f ← n f; if f > 2 then none else some (.ctor (.iniNew f) (← n d) none)
+  | ["ini_new", d, f] => do let f ← n f; if f > 3 then none else some (.ctor (.iniNew f) (← n d) none)
   | ["ini_parse", d, e] => do some (.mut .iniParse .ini (← n d) (← argOpt e))
   | ["ini_sections", s, d] => do some (.derive .iniSections (← n s) (← n d) none)
   | ["ini_keys", s, sec, d] => do some (.derive (.iniKeys (← n sec)) (← n s) (← n d) none)
